@@ -391,7 +391,7 @@ func (b *builder) typeSwitch(x *ast.TypeSwitchStmt, label string) {
 			if dst < 0 {
 				dst = b.g.discard
 			}
-			n := &node{kind: kTypeTest, x: dst, y: sv, toIface: isIface(tt), pos: cc.List[0].Pos()}
+			n := &node{kind: kTypeTest, x: dst, y: sv, toIface: isIface(tt), ptype: b.targetType(tt), pos: cc.List[0].Pos()}
 			if !tracked(tt) {
 				// the bound variable is not a pointer or interface
 				n.x = b.g.discard
@@ -407,7 +407,7 @@ func (b *builder) typeSwitch(x *ast.TypeSwitchStmt, label string) {
 			if b.isNilExpr(e) {
 				b.branch2(&node{kind: kGuard, x: sv, pos: e.Pos()}, next, pre)
 			} else {
-				b.branch2(&node{kind: kTypeTest, x: b.g.discard, y: sv, toIface: true, pos: e.Pos()}, pre, next)
+				b.branch2(&node{kind: kTypeTest, x: b.g.discard, y: sv, toIface: true, ptype: -1, pos: e.Pos()}, pre, next)
 			}
 			b.startAt(pre)
 			if bv >= 0 {
@@ -448,7 +448,14 @@ func (b *builder) ret(x *ast.ReturnStmt) {
 			if b.g.results[j] >= 0 {
 				args = append(args, opnd{opVar, b.g.results[j]})
 			} else {
-				args = append(args, nilOp) // cannot happen: a bare return needs named results
+				// a named result that is not a model variable (bool, or its address is taken)
+				v := b.temp(tr[j].typ)
+				if isIface(tr[j].typ) {
+					b.set(v, rUnknownDirty, 0, x.Pos())
+				} else {
+					b.set(v, rUnknown, 0, x.Pos())
+				}
+				args = append(args, opnd{opVar, v})
 			}
 		}
 	case len(x.Results) == 1 && sig.Results().Len() > 1:
@@ -477,7 +484,11 @@ func (b *builder) ret(x *ast.ReturnStmt) {
 			if i < sig.Results().Len() {
 				rt = sig.Results().At(i).Type()
 			}
-			ops[i] = b.exprTo(e, rt, "return")
+			if isBool(rt) {
+				ops[i] = b.boolOperand(e)
+			} else {
+				ops[i] = b.exprTo(e, rt, "return")
+			}
 		}
 		for _, r := range tr {
 			if r.idx < len(ops) {
@@ -493,11 +504,31 @@ func (b *builder) ret(x *ast.ReturnStmt) {
 	b.cur = nil
 }
 
+// recordsError: the statement assigns the parser's error list (p.errors = append(p.errors, ..))
+func (b *builder) recordsError(x *ast.AssignStmt) bool {
+	for _, l := range x.Lhs {
+		if se, ok := ast.Unparen(l).(*ast.SelectorExpr); ok && se.Sel.Name == "errors" {
+			if sn, _, ok := fieldKeyOf(b.pk, se); ok && sn == "parser.Parser" {
+				return true
+			}
+		}
+	}
+	return false
+}
+
 func (b *builder) assign(x *ast.AssignStmt) {
 	b.barrierHere()
 	switch x.Tok {
 	case token.ASSIGN, token.DEFINE:
 		b.assignLists(x.Lhs, x.Rhs, x.Tok, x.Pos())
+		if b.pk.errHalts && b.recordsError(x) {
+			// C03 speaks about runs in which no parse error is recorded: the run ends here
+			if b.cur == nil {
+				b.cur = b.nop()
+			}
+			b.cur.s1 = &node{kind: kHalt, pos: x.Pos()}
+			b.cur = nil
+		}
 	default:
 		// op=
 		for _, l := range x.Lhs {
@@ -597,7 +628,7 @@ func (b *builder) assignLists(lhs, rhs []ast.Expr, tok token.Token, pos token.Po
 			okN.assumeVar, okN.assumeVal = ov, true
 			failN.assumeVar, failN.assumeVal = ov, false
 		}
-		b.branch2(&node{kind: kTypeTest, x: dst, y: sv, toIface: isIface(tt), pos: y.Pos()}, okN, failN)
+		b.branch2(&node{kind: kTypeTest, x: dst, y: sv, toIface: isIface(tt), ptype: b.targetType(tt), pos: y.Pos()}, okN, failN)
 		okN.s1, failN.s1 = j, j
 		b.startAt(j)
 		if !direct && tracked(tt) && b.lhsVar(lhs[0]) != -2 {
@@ -624,7 +655,7 @@ func (b *builder) assignLists(lhs, rhs []ast.Expr, tok token.Token, pos token.Po
 				dests[j] = -1
 				if rr.idx < len(lhs) {
 					v := b.lhsVar(lhs[rr.idx])
-					if v == -2 {
+					if v == -2 || isBool(rr.typ) {
 						dests[j] = -2
 					} else if v >= 0 && types.Identical(b.g.vars[v].typ, rr.typ) {
 						dests[j] = v
@@ -805,4 +836,12 @@ func (b *builder) normalizeIdiom(x *ast.IfStmt) int {
 		return -1
 	}
 	return v
+}
+
+// targetType: the number of the pointer type T of a type test x.(T) (-1 when T is not a pointer type)
+func (b *builder) targetType(tt types.Type) int {
+	if tt == nil || isIface(tt) || !isPtr(tt) {
+		return -1
+	}
+	return b.pk.typeID(tt)
 }
